@@ -1,9 +1,11 @@
-\* thorough: condition trees of 5 levels, stack item trees of 4 levels
+\* thorough: condition trees of 4 levels and stack item trees of 3 levels with more kinds of siblings
 SPECIFICATION Spec
 CONSTANTS
   Spaces = {"cond", "signer", "attrs", "item", "manifest", "nef"}
-  CondDepth = 4
-  ItemDepth = 3
+  CondDepth = 3
+  ItemDepth = 2
+  CSibs = {"BoolT", "CalledByEntry", "Group"}
+  ISibs = {"Any", "Int", "Bytes", "Buffer"}
   MutFields = 1
   JMutNodes = 1
   Tags = {}
